@@ -734,6 +734,10 @@ func (this *encodingTask) encode(res *encodingTaskResult) {
 
 	defer func() {
 		if r := recover(); r != nil {
+			if verifOn {
+				verifRecovered(verifSideEncode, this.currentBlockID, r)
+			}
+
 			switch v := r.(type) {
 			case error:
 				res.err = &IOError{msg: v.Error(), code: kanzi.ERR_PROCESS_BLOCK}
@@ -745,12 +749,28 @@ func (this *encodingTask) encode(res *encodingTaskResult) {
 		// Unblock other tasks
 		if res.err != nil {
 			atomic.StoreInt32(this.processedBlockID, _CANCEL_TASKS_ID)
+
+			if verifOn {
+				verifStep(verifSideEncode, this.currentBlockID, verifCancelStored, this.processedBlockID)
+			}
 		} else {
 			atomic.CompareAndSwapInt32(this.processedBlockID, this.currentBlockID-1, this.currentBlockID)
+
+			if verifOn {
+				verifStep(verifSideEncode, this.currentBlockID, verifPublish, this.processedBlockID)
+			}
+		}
+
+		if verifOn {
+			verifStep(verifSideEncode, this.currentBlockID, verifExit, this.processedBlockID)
 		}
 
 		this.wg.Done()
 	}()
+
+	if verifOn {
+		verifStep(verifSideEncode, this.currentBlockID, verifStart, this.processedBlockID)
+	}
 
 	hashType := kanzi.EVT_HASH_NONE
 
@@ -931,11 +951,19 @@ func (this *encodingTask) encode(res *encodingTaskResult) {
 		}
 	}
 
+	if verifOn {
+		verifStep(verifSideEncode, this.currentBlockID, verifWaitEnter, this.processedBlockID)
+	}
+
 	// Lock free synchronization
 	for n := 0; ; n++ {
 		taskID := atomic.LoadInt32(this.processedBlockID)
 
 		if taskID == _CANCEL_TASKS_ID {
+			if verifOn {
+				verifStep(verifSideEncode, this.currentBlockID, verifCancelSeen, this.processedBlockID)
+			}
+
 			return
 		}
 
@@ -943,9 +971,21 @@ func (this *encodingTask) encode(res *encodingTaskResult) {
 			break
 		}
 
+		if verifOn {
+			verifStep(verifSideEncode, this.currentBlockID, verifSpin, this.processedBlockID)
+		}
+
 		if n&0x1F == 0 {
 			runtime.Gosched()
 		}
+	}
+
+	if verifOn {
+		verifStep(verifSideEncode, this.currentBlockID, verifAcquired, this.processedBlockID)
+	}
+
+	if verifOn {
+		verifStep(verifSideEncode, this.currentBlockID, verifIOBegin, this.processedBlockID)
 	}
 
 	// Emit block size in bits (max size pre-entropy is 1 GB = 1 << 30 bytes)
@@ -973,6 +1013,10 @@ func (this *encodingTask) encode(res *encodingTaskResult) {
 		if written < 1<<30 {
 			chkSize = uint(written)
 		}
+	}
+
+	if verifOn {
+		verifStep(verifSideEncode, this.currentBlockID, verifIOEnd, this.processedBlockID)
 	}
 }
 
@@ -1320,6 +1364,9 @@ func (this *Reader) readHeader() (err error) {
 
 	defer func() {
 		if r := recover(); r != nil {
+			if verifOn {
+				verifRecovered(verifSideHeader, 0, r)
+			}
 
 			switch v := r.(type) {
 			case error:
@@ -1776,6 +1823,10 @@ func (this *decodingTask) decode(res *decodingTaskResult) {
 		res.skipped = skipped
 
 		if r := recover(); r != nil {
+			if verifOn {
+				verifRecovered(verifSideDecode, this.currentBlockID, r)
+			}
+
 			err, ok := r.(error)
 
 			if ok {
@@ -1788,18 +1839,42 @@ func (this *decodingTask) decode(res *decodingTaskResult) {
 		// Unblock other tasks
 		if res.err != nil || (res.decoded == 0 && res.skipped == false) {
 			atomic.StoreInt32(this.processedBlockID, _CANCEL_TASKS_ID)
+
+			if verifOn {
+				verifStep(verifSideDecode, this.currentBlockID, verifCancelStored, this.processedBlockID)
+			}
 		} else if atomic.LoadInt32(this.processedBlockID) == this.currentBlockID-1 {
 			atomic.StoreInt32(this.processedBlockID, this.currentBlockID)
+
+			if verifOn {
+				verifStep(verifSideDecode, this.currentBlockID, verifPublish, this.processedBlockID)
+			}
+		}
+
+		if verifOn {
+			verifStep(verifSideDecode, this.currentBlockID, verifExit, this.processedBlockID)
 		}
 
 		this.wg.Done()
 	}()
+
+	if verifOn {
+		verifStep(verifSideDecode, this.currentBlockID, verifStart, this.processedBlockID)
+	}
+
+	if verifOn {
+		verifStep(verifSideDecode, this.currentBlockID, verifWaitEnter, this.processedBlockID)
+	}
 
 	// Lock free synchronization
 	for n := 0; ; n++ {
 		taskID := atomic.LoadInt32(this.processedBlockID)
 
 		if taskID == _CANCEL_TASKS_ID {
+			if verifOn {
+				verifStep(verifSideDecode, this.currentBlockID, verifCancelSeen, this.processedBlockID)
+			}
+
 			return
 		}
 
@@ -1807,9 +1882,21 @@ func (this *decodingTask) decode(res *decodingTaskResult) {
 			break
 		}
 
+		if verifOn {
+			verifStep(verifSideDecode, this.currentBlockID, verifSpin, this.processedBlockID)
+		}
+
 		if n&0x1F == 0 {
 			runtime.Gosched()
 		}
+	}
+
+	if verifOn {
+		verifStep(verifSideDecode, this.currentBlockID, verifAcquired, this.processedBlockID)
+	}
+
+	if verifOn {
+		verifStep(verifSideDecode, this.currentBlockID, verifIOBegin, this.processedBlockID)
 	}
 
 	// Read shared bitstream sequentially
@@ -1818,6 +1905,10 @@ func (this *decodingTask) decode(res *decodingTaskResult) {
 	read := this.ibs.ReadBits(lr)
 
 	if read == 0 {
+		if verifOn {
+			verifStep(verifSideDecode, this.currentBlockID, verifEOS, this.processedBlockID)
+		}
+
 		return
 	}
 
@@ -1851,9 +1942,21 @@ func (this *decodingTask) decode(res *decodingTaskResult) {
 		read -= uint64(chkSize)
 	}
 
+	if verifOn {
+		verifStep(verifSideDecode, this.currentBlockID, verifIOEnd, this.processedBlockID)
+	}
+
 	// After completion of the bitstream reading, increment the block id.
 	// It unblocks the task processing the next block (if any)
 	atomic.StoreInt32(this.processedBlockID, this.currentBlockID)
+
+	if verifOn {
+		verifStep(verifSideDecode, this.currentBlockID, verifPublish, this.processedBlockID)
+	}
+
+	if verifOn {
+		verifStep(verifSideDecode, this.currentBlockID, verifPostPublish, this.processedBlockID)
+	}
 
 	// Check if the block must be skipped
 	if v, hasKey := this.ctx["from"]; hasKey {
